@@ -70,8 +70,6 @@ ASSUMPTIONS = [
     'runs: if the parent already fails before it, the identical failure is accepted',
     'deep nesting of a valid construct may hit an implementation limit: SYNTAX_ERROR / VALIDATION_ERROR / HARD_ERROR / '
     'INTERNAL_ERROR are accepted for it (labelled), an uncaught exception or a hang is not',
-    'SystemExit / KeyboardInterrupt raised by an INTEGER expression (`exit()`) are refused by the harmlessness gate '
-    'and never generated',
     'a SYMBOL-NAME is demanded to be rejected only if it holds an ASCII character that is neither alphanumeric nor '
     '"_"; a word of a closed set only if no word of the set equals it ignoring case',
 ]
@@ -140,41 +138,14 @@ def classify_internal(files, tb, err=None):
     if m and inner == ('exactly_lib/util/symbol_table.py', 'lookup') and tb['type'] == 'KeyError' \
             and err.startswith('In [cleanup]'):
         return 'KF-C18-5' if _is_kf5(files, m.group(1)) else None
-    if tb['type'] == 'OverflowError' and tb['message'] == 'int too large to convert to float' \
-            and inner == ('exactly_lib/util/process_execution/process_executor.py', 'execute'):
-        # KF-C18-9: `timeout = N` with an int that float() refuses reaches subprocess unchecked.
-        # Model: some `timeout = V` of the text has such a V (V is a word of the fixed vocabulary).
-        for text in texts:
-            for v in re.findall(r'(?m)^\s*timeout\s*=\s*(\S+)\s*$', text):
-                if _power_of_ten(v.strip('\'"')) >= 309:  # 10**308 < the largest float < 10**309
-                    return 'KF-C18-9'
-        return None
-    if tb['type'] == 'ValueError' and tb['message'].startswith('Exceeds the limit (4300 digits) for integer string conv'):
-        # KF-C18-8 (second face): an int beyond Python's int -> str limit is put into a message while the instruction
-        # is validated / run.  Model: the text holds an INTEGER 10**N, N >= 4300.
-        if any(_power_of_ten(w.strip('\'"')) >= 4300 for t in texts for w in t.split()):
+    if tb['type'] == 'ValueError' and tb['message'].startswith('Exceeds the limit (4300 digits) for integer string conv') \
+            and inner == ('exactly_lib/impls/types/integer/parse_integer.py', 'validator_for_non_negative'):
+        # KF-C18-8 (second face): a negative int beyond Python's int -> str limit is put into the message of the
+        # validator of non-negative integers (depth options, timeout).  Model: the text holds an INTEGER -10**N, N >= 4300.
+        if any(w.strip('\'"').startswith('-') and _power_of_ten(w.strip('\'"')) >= 4300 for t in texts for w in t.split()):
             return 'KF-C18-8'
         return None
-    if tb['type'] == 'OSError' and tb['message'].startswith('[Errno 36] File name too long') and inner in _KF10_SITES:
-        # KF-C18-10: a file name the OS refuses as too long (a component of more than 255 bytes, or more than 4095
-        # bytes in all) makes Path.exists() / os.chdir() raise at sites that expect only "does not exist".
-        # Model: the text contains such a name.
-        if any(_has_overlong_name(t) for t in texts):
-            return 'KF-C18-10'
-        return None
     return None
-
-
-_KF10_SITES = (('exactly_lib/impls/instructions/multi_phase/change_dir.py', 'custom_main'),
-               ('exactly_lib/impls/instructions/multi_phase/copy.py', '__call__'),
-               ('exactly_lib/impls/types/program/validators.py', '_validate_path'))
-
-
-def _has_overlong_name(text):
-    for word in re.findall(r'[^\s\'"]+', text):
-        if len(word.encode('utf-8')) > 4000 or any(len(c.encode('utf-8')) > 255 for c in word.split('/')):
-            return True
-    return False
 
 
 def classify_escaped(files, obs, depth=0):
@@ -193,11 +164,6 @@ def classify_escaped(files, obs, depth=0):
         # (10**4299 has 4300 digits and is printed, 10**4300 has 4301)
         if any(_power_of_ten(w.strip('\'"')) >= 4300 for t in texts for w in t.split()):
             return 'KF-C18-8'
-    if typ == 'SystemExit' and any(re.search(r'(^|[\s\'"])(exit|quit)\(\d*\)', t) for t in texts):
-        # KF-C18-12: an INTEGER expression that calls exit() / quit(): SystemExit is no Exception, python_evaluate
-        # lets it pass and the program ends with that exit code and without any identifier.
-        # Model: SystemExit escaped and the text holds such a call as a word.
-        return 'KF-C18-12'
     if typ == 'RecursionError' and in_report_printing and ident_of(obs) in ('FAIL', 'XFAIL', 'HARD_ERROR', 'XPASS'):
         # KF-C18-11: the verdict is computed and printed, then the explanation of it - as deep as the expression /
         # the path it explains - is rendered recursively: RecursionError escapes from the report printer.
